@@ -306,7 +306,11 @@ func (x *Exec) finishSpecCall(st *State, p *pendingSpecCall, cbResult Val) {
 		names["called"] = cbResult
 	}
 	env := &Env{x: x, st: st, names: names, cur: st.H, old: p.old, tctx: p.tctx, entryNames: p.names, alloc: allocBefore}
+	callerPkg := fnPkgPath(st.fr.fn)
 	for _, c := range spec.Ensures {
+		if strings.HasPrefix(c.Label, "_") && spec.Pkg != "" && spec.Pkg != callerPkg {
+			continue // package-internal clause (low-level frame): not exported to callers in other packages
+		}
 		st.assume(x.evalBool(env, c.E))
 	}
 	x.completeCall(st, p.site, p.kind, res)
